@@ -197,7 +197,7 @@ def _same(env, arr, rows):
         from symnp.core import SR
         for k in range(K):
             for t in range(T):
-                d = z3.simplify(SR(arr._a[k, t]).z - SR(rows[k][t]).z, som=True)
+                d = z3.simplify(SR(arr._a[k, t]).z - SR(rows[k][t]).z, som=True, sort_sums=True)
                 if not d.eq(z3.RealVal(0)):
                     return False
         return True
